@@ -200,6 +200,27 @@ macro_rules! widths {
     };
 }
 
+/// Like `w!` but also passes BYTES = ceil(BITS/8) as a third const argument.
+#[macro_export]
+macro_rules! widths_b {
+    ($bits:expr, $f:ident, $args:tt, [$($b:literal),* $(,)?]) => {
+        match $bits {
+            $( $b => $f::<$b, { ruint::nlimbs($b) }, { ($b + 7) / 8 }> $args, )*
+            other => panic!("width {other} is not compiled into the executor"),
+        }
+    };
+}
+#[macro_export]
+macro_rules! wb {
+    ($bits:expr, $f:ident, $($a:expr),*) => {
+        $crate::widths_b!($bits, $f, ($($a),*), [
+            0, 1, 2, 3, 4, 5, 6, 7, 8, 9, 13, 16, 31, 32, 33, 60, 63, 64,
+            65, 72, 100, 127, 128, 129, 160, 192, 250, 255, 256, 257, 320,
+            384, 440, 448, 512, 521, 535, 536, 576, 1024, 1100, 4096
+        ])
+    };
+}
+
 /// The compiled width list (DESIGN.md §4.3).
 #[macro_export]
 macro_rules! w {
